@@ -160,7 +160,8 @@ pub fn signal_op(g: &mut G) -> Option<Op> {
         }
         return Some(Op::SigNew { id, sigs, script });
     }
-    let id = *g.sigsrc.last().unwrap();
+    // the two most recent sources can be alive together
+    let id = if g.sigsrc.len() >= 2 && g.rng.chance(1, 3) { g.sigsrc[g.sigsrc.len() - 2] } else { *g.sigsrc.last().unwrap() };
     Some(match g.rng.below(16) {
         0 | 1 => Op::SigAdd(id, subset(g)),
         2 | 3 => Op::SigRemove(id, subset(g)),
